@@ -19,18 +19,22 @@ LocalHosts == {"lhName", "lhUpper", "lo4", "lo4b", "lo6", "unspec4", "unspec6", 
                "lo6zone", "lhDot",
                \* spellings the transport maps to the name / the literal before it dials (UTS-46): full-width letters,
                \* ideographic full stops
-               "lhWide", "lo4Ideo"}
+               "lhWide", "lo4Ideo",
+               \* no host at all (http://:80/): the dialler takes an empty host for the local system
+               "lhEmpty"}
 HostClasses == {"origin",      \* ordinary name, matches nothing
                 "denied",      \* matches a deny-domains include rule
                 "deniedUpper", \* the same domain spelt in upper case by the client: the same domain, denied as well
                 "deniedWide",  \* spelt with full-width letters, which the transport maps to the denied name before it dials
+                "deniedDot",   \* the rooted form of the denied name (trailing dot): the same host
+                "deniedUpperRule", \* a host spelt with capitals, denied by a rule written with the same capitals
                 "denyExcl",    \* matches an include rule and a '-' exclude rule
                 "direct",      \* matches direct-domains
                 "directUpper", \* the same domain spelt in upper case by the client
                 "directExcl"}  \* matches direct-domains include and exclude
                \cup LocalHosts
 IsLocal(h) == h \in LocalHosts
-IsDenied(h) == h \in {"denied", "deniedUpper", "deniedWide"}
+IsDenied(h) == h \in {"denied", "deniedUpper", "deniedWide", "deniedDot", "deniedUpperRule"}
 
 (* ---------- credentials presented to this proxy ---------- *)
 CredClasses == {"none", "exact", "wrongPass", "userPrefix", "passSuffix", "passPrefix", "caseVar", "emptyPass",
@@ -132,9 +136,10 @@ AccessCfgs == [tf : {"off", "in", "out"}, auth : BOOLEAN, lh : {"deny", "allow"}
 AccessReqs == [kind : AccessKinds, host : HostClasses \ {"direct", "directUpper", "directExcl"}, cred : CredClasses,
                via : {"none", "ownOnly"}, pos : Positions]
 AccessOK(c, r) ==
-  /\ (r.host \in {"lo6zone", "lhDot", "lhWide", "lo4Ideo", "deniedWide"} => r.kind \in {"GET", "GET10", "POST"})   \* written in a URL
+  /\ (r.host = "lhEmpty" => c.lh = "deny")       \* (with localhost allowed the outcome depends on what listens on the proxy's own port 80)
+  /\ (r.host \in {"lo6zone", "lhDot", "lhWide", "lo4Ideo", "deniedWide", "lhEmpty"} => r.kind \in {"GET", "GET10", "POST"})   \* written in a URL
   /\ (r.cred # "none" => c.auth)                 \* credentials only matter with auth on
-  /\ (r.host \in {"denied", "deniedUpper", "deniedWide", "denyExcl"} => c.deny)
+  /\ (r.host \in {"denied", "deniedUpper", "deniedWide", "deniedDot", "deniedUpperRule", "denyExcl"} => c.deny)
   /\ (r.pos \in AfterRefused => (c.auth \/ c.deny \/ c.lh = "deny" \/ c.tf = "out"))
   /\ (r.pos = "afterOK" => c.tf # "out")
 AccessAll == {x \in AccessCfgs \X AccessReqs : AccessOK(x[1], x[2])}
@@ -167,8 +172,10 @@ CredUps == {"none", "staticUserinfo", "staticTable", "pacTable"}
 CredCfgs == [table : SUBSET (SiteEntries \cup {"proxy"}), up : CredUps]
 ClientShapes == {"none", "ownAuthz", "pauthOnce", "pauthTwice", "pauthMixedCase", "pauthNominated", "pauthAndAuthz"}
 \* originUpper: the entry's host spelt in upper case by the client - the same target
-CredReqs == [kind : {"GET", "CONNECT", "MITMGET"}, host : {"origin", "other", "originUpper"}, port : {"implicit", "8080"}, shape : ClientShapes]
-CredReqOK(r) == (r.kind = "CONNECT" => r.port = "8080") /\ (r.kind = "MITMGET" => r.port = "implicit") /\ (r.host = "originUpper" => r.kind = "GET")
+\* originDotlessI: "or\u0130gin.test" - U+0130 lower-cases to "i" under Unicode rules, but it is another host (the transport
+\* dials its IDNA form): no entry for origin.test applies
+CredReqs == [kind : {"GET", "CONNECT", "MITMGET"}, host : {"origin", "other", "originUpper", "originDotlessI"}, port : {"implicit", "8080"}, shape : ClientShapes]
+CredReqOK(r) == (r.kind = "CONNECT" => r.port = "8080") /\ (r.kind = "MITMGET" => r.port = "implicit") /\ (r.host \in {"originUpper", "originDotlessI"} => r.kind = "GET")
 HasOwnAuthz(sh) == sh \in {"ownAuthz", "pauthAndAuthz"}
 CredExpect(c, r) ==
   LET p80 == r.kind = "GET" /\ r.port = "implicit"        \* http default port; CONNECT uses 8080, MITM 443
@@ -187,7 +194,7 @@ Pick(n, S) == IF n = 0 THEN S ELSE RandomSubset(n, S)
 \* every (kind, host) pair is always run alone - first on its connection, credentials absent or right, no other control failing
 AccessBase == {x \in AccessAll : /\ x[2].cred \in {"none", "exact"} /\ x[2].via = "none" /\ x[2].pos = "first"
                                  /\ x[1].tf = "off" /\ x[1].up = NoUp
-                                 /\ x[1].deny = (x[2].host \in {"denied", "deniedUpper", "deniedWide", "denyExcl"})}
+                                 /\ x[1].deny = (x[2].host \in {"denied", "deniedUpper", "deniedWide", "deniedDot", "deniedUpperRule", "denyExcl"})}
 InitAccess == gen = "access" /\ \E x \in Pick(AccessSample, AccessAll) \cup (IF AccessSample = 0 THEN {} ELSE AccessBase) :
                   cfg = x[1] /\ req = x[2] /\ out = Decide(x[1], x[2])
 \* every (kind, host, upstream) triple is always run without connect-to rules
